@@ -516,7 +516,7 @@ class RdmsOps:
         parts, sems = [], []
         for k in range(2 + o['u'] % 2):
             cu = src.sem['cu']
-            sub = r.sample(cu, r.randint(2, len(cu)))
+            sub = r.sample(cu, 1 if (o['a'][4] % 5 == 0 and k < 1 + o['u'] % 2) else r.randint(2, len(cu)))      # sometimes a partial with one condition (no pairs), not in last place
             try:
                 part = src.obj.subset_pattern('uid', sub).copy()
                 if o['flag']:
